@@ -77,12 +77,22 @@ impl Process {
     pub fn set_data_with<F: Fn(&mut Vars)>(&self, f: F) {
         if let Some(root) = self.root() {
             root.set_data_with(f);
+            // process variables live in the root task: keep its stored row in step
+            self.runtime
+                .cache()
+                .upsert(&root)
+                .unwrap_or_else(|err| error!("set_data_with upsert={}", err));
         }
     }
 
     pub fn set_data(&self, vars: &Vars) {
         if let Some(root) = self.root() {
             root.set_data(vars);
+            // process variables live in the root task: keep its stored row in step
+            self.runtime
+                .cache()
+                .upsert(&root)
+                .unwrap_or_else(|err| error!("set_data upsert={}", err));
         }
     }
 
